@@ -283,6 +283,13 @@ inductive Op
   alike — so a rebuilt store still talks to the same register; `first` writes an empty cache at construction,
   `local` disables cache writing -/
   | rebuild (i : Nat) (first : Bool) (disabled : Bool)
+  /-- the second half of a flush whose `write` FAILS (disk full, read-only directory): nothing reaches the file, the
+  error is returned; what is left in memory depends on the shape of `sync_and_flush_to_disk` (`flushFailKeepsMemory`) -/
+  | flushFail (i : Nat) (withCleanup : Bool) (ch : List Nat)
+  /-- the periodic save of `ant-networking/src/driver.rs`: `old = cache.clone(); cache = BootstrapCacheStore::new(config)`;
+  slot `j` receives the old store (the spawned task then flushes it: `flushLoad j`, `flushCommit j` / `flushFail j`), slot `i`
+  continues empty with the same configuration -/
+  | swap (i j : Nat)
   /-- something outside the cache code replaces the file (crafted or corrupt content) -/
   | extFile (f : File)
   deriving Repr
@@ -300,6 +307,10 @@ def commitData (cfg : Cfg) (ch : List Nat) (now : Nat) (withCleanup : Bool) (w :
     | some (some d) => syncCache w.mem d
     | _ => w.mem
   if withCleanup then removeOldest cfg ch now (cleanup cfg ch now merged) else merged
+
+/-- the memory after a flush whose write failed: as it was (`keep`), or the merge that was about to be written -/
+def failMem (keep : Bool) (cfg : Cfg) (ch : List Nat) (now : Nat) (withCleanup : Bool) (w : Writer) : Cache :=
+  if keep then w.mem else commitData cfg ch now withCleanup w
 
 def step (s : Sys) : Op → Sys
   | .tick d => { s with now := s.now + d }
@@ -319,6 +330,15 @@ def step (s : Sys) : Op → Sys
     if i < s.ws.length then
       { s with ws := modAt (fun _ => ⟨[], none, disabled⟩) i s.ws, file := if first then .data [] else s.file }
     else s
+  | .flushFail i wc ch =>
+    if decide (i < s.ws.length) && !(getW s.ws i).disabled then
+      { s with ws := modAt (fun w => { w with mem := failMem flushFailKeepsMemory s.cfg ch s.now wc w, loaded := none }) i s.ws }
+    else s
+  | .swap i j =>
+    if decide (i < s.ws.length) && (decide (j < s.ws.length) && decide (i ≠ j)) then
+      { s with ws := modAt (fun _ => ⟨[], none, (getW s.ws i).disabled⟩) i
+                      (modAt (fun _ => ⟨(getW s.ws i).mem, none, (getW s.ws i).disabled⟩) j s.ws) }
+    else s
   | .extFile f => { s with file := f }
 
 def run (s : Sys) : List Op → Sys
@@ -328,14 +348,39 @@ def run (s : Sys) : List Op → Sys
 /-- `sync_and_flush_to_disk(with_cleanup)` executed without interruption. -/
 def flushOps (i : Nat) (wc : Bool) (ch : List Nat) : List Op := [.flushLoad i ch, .flushCommit i wc ch]
 
+/-- the same with the write failing -/
+def flushFailOps (i : Nat) (wc : Bool) (ch : List Nat) : List Op := [.flushLoad i ch, .flushFail i wc ch]
+
 /-! ### start-up: `PeersArgs::get_bootstrap_addr` (initial_peers.rs), with the network sources switched off
 (`disable_mainnet_contacts`, no `network_contacts_url`) -/
 
 inductive StartErr
   | noPeers
-  /-- an error of `load_cache_data` handed to the caller -/
+  /-- an error of `load_cache_data` handed to the caller, or an I/O error while preparing the cache directory -/
   | cache
+  /-- `Error::InvalidBootstrapCacheDir`: `--bootstrap-cache-dir` names a regular file -/
+  | badDir
   deriving DecidableEq, Repr
+
+/-- what `PeersArgs::bootstrap_cache_dir` points at (`get_bootstrap_cache_path`, initial_peers.rs) -/
+inductive DirKind
+  /-- no override: the configuration's own cache path is used -/
+  | noOverride
+  /-- an existing directory -/
+  | isDir
+  /-- nothing there, and `create_dir_all` succeeds (the cache file is then absent) -/
+  | missing
+  /-- a regular file: `InvalidBootstrapCacheDir` -/
+  | isFile
+  /-- nothing there, and `create_dir_all` fails (a parent is a regular file, or not writable): the I/O error is returned -/
+  | uncreatable
+  deriving DecidableEq, Repr
+
+/-- `get_bootstrap_cache_path()?`: the error it hands to its caller, if any -/
+def dirErr : DirKind → Option StartErr
+  | .isFile => some .badDir
+  | .uncreatable => some .cache
+  | _ => none
 
 structure StartArgs where
   first : Bool
@@ -376,7 +421,7 @@ def startAddr (now : Nat) (m : Ma) : Addr := ⟨m, 0, 0, now⟩
 arguments; then the cache file (unless `ignore_cache`), one least-faulty address per peer; sorted and cut to
 `count`. (The early return inside the cache step yields the same value as the final step, so it is not
 modelled separately.) -/
-def startup (cfg : Cfg) (ch ord : List Nat) (now : Nat) (args : StartArgs) (env : List Ma) (file : File) :
+def startup (cfg : Cfg) (ch ord : List Nat) (now : Nat) (args : StartArgs) (env : List Ma) (dir : DirKind) (file : File) :
     Except StartErr (List Addr) :=
   if args.first then .ok [] else
   let envA := (env.filterMap craft).map (startAddr now)
@@ -385,6 +430,9 @@ def startup (cfg : Cfg) (ch ord : List Nat) (now : Nat) (args : StartArgs) (env 
   let a := (args.addrs.filterMap craft).map (startAddr now)
   if enough args.count a then .ok (trunc args.count (sortByKey a)) else
   if args.ignoreCache then finish args.count a else
+  match dirErr dir with
+  | some e => .error e
+  | none =>
   match load cfg ch now file with
   | some d => finish args.count (a ++ cachePicks ord d)
   | none =>
@@ -393,5 +441,22 @@ def startup (cfg : Cfg) (ch ord : List Nat) (now : Nat) (args : StartArgs) (env 
 def okB : Except StartErr (List Addr) → Bool
   | .ok _ => true
   | .error _ => false
+
+/-- what antnode does with the cache before it starts (ant-node/src/bin/antnode/main.rs):
+`BootstrapCacheStore::new_from_peers_args(&opt.peers, ..)?` (`get_bootstrap_cache_path()?`, and for `--first` a `write()?` of
+an empty cache) followed by `sync_and_flush_to_disk(true)?` ("to create the file before startup"; nothing when `--local`
+disabled cache writing). Both `?` end the process. `writeFails` = the cache file cannot be written. -/
+def nodeStart (dir : DirKind) (first «local» writeFails : Bool) : Except StartErr Unit :=
+  match dirErr dir with
+  | some e => .error e
+  | none =>
+    if first && writeFails then .error .cache
+    else if !«local» && writeFails then .error .cache
+    else .ok ()
+
+/-- the period the bootstrap-cache save interval is scaled to after a save (driver.rs): seconds of the current period
+times `cache_save_scaling_factor` (saturating), capped by `max_cache_save_duration` (± its variance). `tokio::time::interval`
+panics on a zero period. -/
+def nextSavePeriod (cur factor maxv : Nat) : Nat := min (cur * factor) maxv
 
 end SafeNet.BootCache
